@@ -768,6 +768,8 @@ static void run(void)
 		S.c02 = sim_choose(2);
 	nf = 1 + sim_choose(MAXF);
 	uint32_t nsteps = 5 + sim_choose(56);
+	if (sim_chance(1, 16))
+		nsteps = 150 + sim_choose(250);	/* long-lived schedulers: counters and queue cursors wrap */
 	S.queue_full_enabled = sim_chance(1, 4);
 	if (S.c02) {
 		uint32_t b = sim_choose(12);
